@@ -303,6 +303,17 @@ func c12Run[T any](seed uint64, tier string, gen func(r *simrt.Rand) T) (*Episod
 					}
 					valid, _ := json.Marshal(c12Wire[T]{ID: fmt.Sprintf("inj%d", i), Status: "Queued", Data: gen(r)})
 					e, _ := c12Corrupt(r, valid)
+					if r.Chance(20) {
+						// a well-formed envelope whose payload is of a JSON type that encoding/json
+						// refuses for T: it cannot be decoded either, and must not run as a job
+						for _, cand := range []string{`"abc"`, `123`, `{"n":"seven"}`, `[true]`, `{"a":{}}`, `1.5`} {
+							var probe T
+							if json.Unmarshal([]byte(cand), &probe) != nil {
+								e = adEntry{Bytes: []byte(`{"id":"wrongtype","status":"Queued","data":` + cand + `}`), Bad: 9, Sub: -1}
+								break
+							}
+						}
+					}
 					e.Prio = pick(r, prioVals)
 					ad.hb()
 					ad.inject(simrt.Choose(len(ad.pending)+1), e)
@@ -382,6 +393,10 @@ func c12Judge[T any](ep *Episode, cw *c12World) {
 	for _, s := range cw.seen {
 		seenIDs[s.ID]++
 		a := byID[s.ID]
+		if a == nil && s.ID == "wrongtype" {
+			cw.add("C12.c", s.Seq, "an injected entry whose payload encoding/json cannot decode into the payload type ran as a job (id %q, payload %#v): it must be reported and skipped", s.ID, s.Data)
+			continue
+		}
 		if a == nil {
 			// an injected entry that happened to decode: only isolation is demanded of it
 			if !strings.HasPrefix(s.ID, "inj") && s.ID != "x" && s.ID != "closed-one" && cw.injected == 0 {
